@@ -18,7 +18,8 @@ RULE = (
     "randomly generated .cbi/config files (own TOML writer): new compilers, alias chains of length 0-4 incl. loops and "
     "dangling targets, implicit options, parser rules with append_const / store_split / extend_match (with and without "
     "default / override), modes, passes with modes, and redefinitions of built-in compilers (extra options, rules, "
-    "redefined modes/passes, alias<->compiler flips), crossed with command lines enabling every subset of the configured "
+    "redefined modes/passes, alias<->compiler flips, a flag declared again by a later rule with another arity: value-less -> "
+    "value-taking and back, for the built-in -fopenmp and for flags of the same table), crossed with command lines enabling every subset of the configured "
     "flags in both `--f=v` and `--f v` spellings and argv[0] spelled bare or with directory prefixes; plus the four "
     "built-in definition files with every documented flag combination. Oracle: an independent interpreter of the "
     "documented rules (model in this file, reading the built-in TOML files itself) giving, per pass, the ordered "
@@ -26,11 +27,11 @@ RULE = (
     "the same options given explicitly, purity (parsing a command twice or after other commands gives the same result), "
     "alias loops / unknown targets are reported (ERROR) without hanging; through finder.find a line guarded by a "
     "pass/mode macro is attributed iff some pass defines it. Non-trivial: alias chain >=2, a flag selecting >=2 passes, a "
-    "pass pulling in a mode, or a user file modifying a built-in compiler; distinct by config text+argv."
+    "pass pulling in a mode, a user file modifying a built-in compiler, or a command using a flag that was declared again; distinct by config text+argv."
 )
 ASSUMPTIONS = [
     "the order in which several active modes contribute is unspecified: contributions of passes/modes are compared as multisets after the ordered command-line part",
-    "flag names are generated so that they cannot collide with -D/-I/-O/-o/-g/-c (C11's subject); the only built-in flag a user file re-declares is -fopenmp (the later rule replaces the earlier one)",
+    "flag names are generated so that they cannot collide with -D/-I/-O/-o/-g/-c (C11's subject); the only built-in flag a user file re-declares is -fopenmp; a later rule for a flag replaces the earlier one (action, arity and default passes), only single-spelling rules are re-declared",
     "a default declared for a pass-selecting flag is active even when the flag is absent (built-in icx/nvcc behaviour, relied on by the existing tests)",
 ]
 
@@ -97,6 +98,29 @@ def resolve(comps, name):
     return comps[chain[-1]], None
 
 
+def effective_rules(parser):
+    """A later rule for a flag replaces the earlier rule for that flag: every rule keeps only the spellings
+    that no later rule declares again; a rule left without any spelling is gone (with its default)."""
+    out = []
+    for k, r in enumerate(parser):
+        later = {f for r2 in parser[k + 1:] for f in r2["flags"]}
+        live = [f for f in r["flags"] if f not in later]
+        if live:
+            out.append(dict(r, flags=live))
+    return out
+
+
+def redeclarations(parser):
+    """[(flag, earlier rule takes a value?, final rule takes a value?)] for flags declared more than once"""
+    final = {f: r for r in effective_rules(parser) for f in r["flags"]}
+    out = []
+    for k, r in enumerate(parser):
+        for f in r["flags"]:
+            if final.get(f) is not None and any(f in r2["flags"] for r2 in parser[k + 1:]):
+                out.append((f, r["action"] != "append_const", final[f]["action"] != "append_const"))
+    return out
+
+
 VALUE_FLAGS = {"-D": "defines", "-I": "include_paths", "-isystem": "system", "-include": "include_files"}
 
 
@@ -105,14 +129,15 @@ def model_parse(defn, argv):
     Returns {pass: (ordered cmdline triple, contributed multiset triple)} for defined passes."""
     defn = defn or {"options": [], "parser": [], "modes": {}, "passes": {}}
     args = list(argv) + list(defn["options"])
+    parser_rules = effective_rules(defn["parser"])
     rules = {}
-    for r in defn["parser"]:
+    for r in parser_rules:
         for f in r["flags"]:
             rules[f] = r
     lists = {"defines": [], "include_paths": [], "system": [], "include_files": [], "modes": [], "passes": []}
     flag_passes = {}
     seen_override = set()
-    for r in defn["parser"]:
+    for r in parser_rules:
         if r["action"] in ("store_split", "extend_match") and r.get("dest") == "passes" and "default" in r:
             dv = r["default"]
             flag_passes[r["flags"][0]] = list(dv) if isinstance(dv, list) else [dv]
@@ -321,6 +346,22 @@ def config_strategy():
         )
 
     @st.composite
+    def valued_rule(draw, flag):
+        """a rule that makes `flag` take a value: selects passes (split / match) or modes (match)"""
+        kind = draw(st.sampled_from(["split", "match", "matchmode"]))
+        if kind == "split":
+            r = {"flags": [flag], "action": "store_split", "sep": ",", "format": "p-$value", "dest": "passes"}
+        elif kind == "match":
+            r = {"flags": [flag], "action": "extend_match", "pattern": "v(\\d+)", "format": "p-$value", "dest": "passes"}
+        else:
+            r = {"flags": [flag], "action": "extend_match", "pattern": "m(\\d)", "format": "m$value", "dest": "modes"}
+        if kind != "matchmode" and draw(st.booleans()):
+            r["default"] = draw(st.lists(st.sampled_from(pass_names), min_size=1, max_size=2, unique=True))
+        if kind != "split" and draw(st.booleans()):
+            r["override"] = draw(st.booleans())
+        return r
+
+    @st.composite
     def definition(draw, flag_prefix, redefines_builtin=False):
         d = {}
         modes = draw(st.lists(st.sampled_from(mode_names), max_size=3, unique=True))
@@ -362,9 +403,16 @@ def config_strategy():
         if redefines_builtin and draw(st.integers(0, 2)) == 0:
             # the user's rule replaces the built-in one for this flag
             rules.append({"flags": ["-fopenmp"], "action": "append_const", "dest": "defines", "const": "USER_OPENMP=1"})
+        # constructed scenario "a flag is declared again with another arity": a later rule of the same table, or a
+        # user rule for the built-in (value-less) -fopenmp, gives a value-less flag a value or takes the value away
+        again = [r["flags"][0] for r in rules if len(r["flags"]) == 1] + (["-fopenmp"] if redefines_builtin else [])
+        if again and draw(st.integers(0, 2)) == 0:
+            flag = draw(st.sampled_from(again))
+            tag = re.sub(r"\W", "", flag).upper()
+            rules.append(draw(valued_rule(flag)) if draw(st.integers(0, 3)) else {"flags": [flag], "action": "append_const", "dest": "defines", "const": f"AGAIN_{tag}"})
         if rules:
             d["parser"] = rules
-        opts = draw(st.lists(st.sampled_from(["-DIMPL", "-DIMPL2=3", "-I/impl/inc", "-isystem", "/impl/sys", "-include", "impl.h"] + [r["flags"][0] for r in rules if r["action"] == "append_const"]), max_size=3))
+        opts = draw(st.lists(st.sampled_from(["-DIMPL", "-DIMPL2=3", "-I/impl/inc", "-isystem", "/impl/sys", "-include", "impl.h"] + [r["flags"][0] for r in effective_rules(rules) if r["action"] == "append_const"]), max_size=3))
         # keep "-isystem"/"-include" paired with their value
         fixed = []
         for o in opts:
@@ -415,11 +463,15 @@ def commands_for(draw, comps, user):
         defn, problem = resolve(comps, name)
         argv = []
         flags = []
+        declared_again = {f for f, _, _ in redeclarations(defn["parser"])} if defn else set()
         if defn:
-            for r in defn["parser"]:
+            for r in effective_rules(defn["parser"]):
                 f = draw(st.sampled_from(r["flags"])) if r["action"] == "store_split" and len(r["flags"]) > 1 and r["flags"][0].lstrip("-").startswith(("f", "u")) else r["flags"][0]
                 if r["action"] == "append_const":
                     flags.append([f])
+                    if f in declared_again:
+                        # a flag without a value may still be written with one (clang's -fopenmp=libomp)
+                        flags.append([f + "=" + draw(st.sampled_from(["1", "v1", "m1", "libomp"]))])
                 elif r["action"] == "store_split":
                     v = draw(st.sampled_from(["1", "1,2", "3,1", "2", "9"])) if f.lstrip("-").startswith(("f", "u")) else draw(st.sampled_from(["spir64", "spir64,spir64_gen", "nvptx64-nvidia-cuda"]))
                     flags.append([f"{f}={v}"] if draw(st.booleans()) else [f, v])
@@ -577,8 +629,15 @@ def check_case(case, res: Result):
     multi = any(len(model_parse(resolve(comps, os.path.basename(c["argv0"]))[0], c["argv"])) >= 3 for c in case["commands"])
     pass_mode = any(p.get("modes") for d in user.values() for p in d.get("passes", []))
     mod_builtin = any(n in builtins for n in user)
-    nt = chains >= 2 or multi or pass_mode or mod_builtin
-    res.case(key=[text, case["commands"]], nontrivial=nt, sample={"config": text, "commands": case["commands"]} if (multi and len(res.samples) < 6) else None, labels=[f"alias-chain={min(chains,4)}", "multi-pass" if multi else "single-pass", "modifies-builtin" if mod_builtin else "new-only"])
+    again = set()
+    for c in case["commands"]:
+        dfn = resolve(comps, os.path.basename(c["argv0"]))[0]
+        for f, was_valued, is_valued in redeclarations(dfn["parser"]) if dfn else []:
+            for a in c["argv"]:
+                if a == f or a.startswith(f + "="):
+                    again.add("flag-declared-again:" + ("valued" if was_valued else "value-less") + "->" + ("valued" if is_valued else "value-less") + (":written-with-=" if a != f else ""))
+    nt = chains >= 2 or multi or pass_mode or mod_builtin or bool(again)
+    res.case(key=[text, case["commands"]], nontrivial=nt, sample={"config": text, "commands": case["commands"]} if (multi and len(res.samples) < 6) else None, labels=[f"alias-chain={min(chains,4)}", "multi-pass" if multi else "single-pass", "modifies-builtin" if mod_builtin else "new-only", *sorted(again)])
     return vs
 
 
